@@ -74,6 +74,10 @@ HOSTILE_LINES = [
 ]
 
 
+HOSTILE_PATHS = [b'"', b'""', b'"a', b'a"', b"", b" ", b"\t", b"a/", b"b/", b"/", b'"\\"', b'"a/\\', b"a/x\t", b'"a/x y"\t2020', b"/dev/null", b"a/\xff",
+                 "a/日本".encode(), b'"a/\\346\\227\\245"', b"a/" + b"p" * 300]
+
+
 def mutate(r, data):
     lines = data.split(b"\n")
     n = r.randint(1, 4)
@@ -81,7 +85,7 @@ def mutate(r, data):
         if not lines:
             lines = [b""]
         i = r.randrange(len(lines))
-        op = r.randrange(12)
+        op = r.randrange(13)
         if op == 0:
             del lines[i]
         elif op == 1:
@@ -108,6 +112,19 @@ def mutate(r, data):
             if nums:
                 m = r.choice(nums)
                 lines[i] = lines[i][:m.start()] + r.choice([b"0", b"18446744073709551615", b"18446744073709551616", b"4294967296", b"99999999999999999999999999"]) + lines[i][m.end():]
+        elif op == 12:
+            # a hostile path in a header line: a lone quote, empty, unbalanced quotes, a bare prefix, a tab ...
+            heads = [j for j, l in enumerate(lines) if l.startswith((b"--- ", b"+++ ", b"diff --git ", b"rename ", b"copy ", b"Binary files ", b"diff --cc "))]
+            if heads:
+                j = r.choice(heads)
+                hp = r.choice(HOSTILE_PATHS)
+                l = lines[j]
+                if l.startswith(b"diff --git "):
+                    lines[j] = b"diff --git " + hp + b" " + r.choice([hp, r.choice(HOSTILE_PATHS)])
+                elif l.startswith(b"Binary files "):
+                    lines[j] = b"Binary files " + hp + b" and " + r.choice(HOSTILE_PATHS) + b" differ"
+                else:
+                    lines[j] = l[:l.index(b" ") + 1] + (l.split(b" ")[1] + b" " if l.startswith((b"rename ", b"copy ")) else b"") + hp
         elif op == 9:
             lines = lines[:i]     # truncated stream
         elif op == 10:
@@ -136,6 +153,8 @@ OPTION_SETS = [
     ["--tabs", "0"], ["--tabs", "1"], ["--line-buffer-size", "0"], ["--line-buffer-size", "1"], ["--max-line-distance", "0"], ["--max-line-distance", "1"],
     ["--word-diff-regex", "."], ["--word-diff-regex", ""], ["--word-diff-regex", "\\s+"], ["--true-color", "always"], ["--true-color", "never", "--light"],
     ["--relative-paths"], ["--keep-plus-minus-markers"], ["--keep-plus-minus-markers", "--side-by-side", "--width", "12"],
+    ["--commit-decoration-style", "box ul", "--file-decoration-style", "box ul", "--width", "variable"],
+    ["--commit-decoration-style", "blue box ul", "--file-decoration-style", "box ul ol", "--hunk-header-decoration-style", "box ul", "--width", "9"],
     ["--hunk-header-style", "raw"], ["--hunk-header-style", "omit"], ["--hunk-header-style", "file line-number syntax", "--hunk-header-decoration-style", "box ul"],
     ["--file-style", "raw"], ["--file-style", "omit"], ["--commit-style", "raw"], ["--inspect-raw-lines", "false"], ["--grep-output-type", "classic"],
     ["--grep-output-type", "ripgrep", "--hyperlinks"], ["--zero-style", "normal 17", "--width", "20"], ["--zero-style", "syntax 17", "--width", "10", "--line-fill-method", "spaces"],
